@@ -828,6 +828,10 @@ pub fn run_thread(ctx: &Arc<RunCtx>, acts: Vec<TAct>, mortal: Option<Arc<Obj>>) 
                 let _b = ctx.blocked(op, PH_FIREWAIT);
                 while ctx.recs[op].start.load(ORD) == 0 { thread::park(); }
             }
+            TAct::WaitRet(op) => {
+                let _b = ctx.blocked(op, PH_FIREWAIT);
+                while ctx.recs[op].ret.load(ORD) == 0 { thread::park(); }
+            }
             TAct::Stash(op) => { if let Some(h) = tls.held.remove(&op) { ctx.stash.lock().unwrap().insert(op, h); } }
             TAct::AttemptJoin(op) => {
                 let stashed = ctx.stash.lock().unwrap().remove(&op);
@@ -1040,7 +1044,7 @@ pub struct Handles {
 }
 
 fn prog_has_waits(prog: &Program) -> bool {
-    let t = |a: &TAct| matches!(a, TAct::WaitStart(_) | TAct::HandResumer(_));
+    let t = |a: &TAct| matches!(a, TAct::WaitStart(_) | TAct::WaitRet(_) | TAct::HandResumer(_));
     let f = |a: &FAct| matches!(a, FAct::WaitRet(_) | FAct::WaitStart(_) | FAct::Resume(..) | FAct::WaitDropped(_) | FAct::WaitConsumerWaiting(_));
     prog.threads.iter().flatten().any(t) || prog.phases.iter().flat_map(|p| p.threads.iter().flatten()).any(t) || prog.fire.iter().any(f) || prog.pusher.iter().any(f)
 }
